@@ -407,6 +407,13 @@ func fixedCases() {
 			k++
 		}
 	}
+	for _, n := range []int{0, 1, 2, 3, 5} { // and tiny arrays, every element evaluated in Coq
+		for _, entry := range []string{"trs.TransformArray", "trs.TransformInPlace", "quat.RotateArray", "mesh.ApplyTRS", "mesh.Rotate"} {
+			doBig(bigDesc{Entry: entry, N: n, PSeed: uint64(2000 + k), Workers: workers[k%len(workers)],
+				P: []float64{-3, 2, 1}, S: []float64{1, -2, 3}, Q: []float64{2, 1, 0, -1}})
+			k++
+		}
+	}
 	run.Count("fixed:large-arrays")
 	doTheta(thetaDesc{Theta: math.Pi / 2, Axis: []float64{0, 0, 2}, V: []float64{1, 0, 0}})
 	doTheta(thetaDesc{Theta: math.Pi, Axis: []float64{0, 1, 0}, V: []float64{1, 2, 3}})
